@@ -3,7 +3,7 @@
 Space (configuration lattice): axis-parallel boxes with corners on {0,10,20}^2 including zero-width / zero-height ones (36 boxes):
 ALL ordered lists of 0..3 boxes (with repetitions -> identical regions), lists of 4 (and 5) boxes over a 9-box sub-alphabet chosen to
 overlap in both axes (the recursive decouple fallback), lists over a polygon alphabet (triangles, L, concave, nested); regions
-carrying text lines with de-skew angle 0 / +3 / -3 degrees; both sorters; FakeIntersectionParameter in {0, 0.1, 0.5},
+carrying 0..3 text lines each (4 patterns) with de-skew angle 0 / +3 / -3 degrees; both sorters; FakeIntersectionParameter in {0, 0.1, 0.5},
 ImageWidthDenominator in {1, 10, 100}.  Every call runs under a recursion limit and a 5 s alarm.
 
 Oracle: the output region list is a permutation of the input OBJECTS, each with its lines / ids / text untouched; polygons equal the
@@ -82,19 +82,24 @@ def run_shard(shard, ctx, tier):
                 if n == 2:
                     for sk in (1, 2):
                         guarded_check(mod, {'boxes': lst, 'skew': sk}, ctx)
+                        guarded_check(mod, {'boxes': lst, 'skew': sk, 'lv': 1 + (sum(lst) + sk) % 3}, ctx)
     elif shard['kind'] == 'deep':
         n = shard['n']
         pre = [shard['first']] + ([shard['second']] if shard['second'] is not None else [])
         for rest in itertools.product(range(BOUNDS[tier]['deep_alpha']), repeat=n - len(pre)):
-            guarded_check(mod, {'deep': pre + list(rest), 'skew': (sum(rest) % 3)}, ctx)
+            guarded_check(mod, {'deep': pre + list(rest), 'skew': (sum(rest) % 3), 'lv': (sum(rest) // 3) % 4}, ctx)
     else:
         for n in (1, 2, 3):
             for rest in itertools.product(range(len(POLYS)), repeat=n - 1):
                 for sk in range(3):
-                    guarded_check(mod, {'polys': [shard['first']] + list(rest), 'skew': sk}, ctx)
+                    for lv in range(4):
+                        guarded_check(mod, {'polys': [shard['first']] + list(rest), 'skew': sk, 'lv': lv}, ctx)
 
 
-def build_page(polygons, skew_deg):
+LINE_COUNTS = [[2, 2, 2, 2, 2], [1, 0, 1, 0, 1], [0, 3, 1, 0, 2], [0, 0, 0, 0, 0]]      # text lines per region, by line variant
+
+
+def build_page(polygons, skew_deg, lv=0):
     from pero_ocr.core.layout import PageLayout, RegionLayout, TextLine
     page = PageLayout(id='p', page_size=(100, 1000))
     for k, poly in enumerate(polygons):
@@ -103,7 +108,7 @@ def build_page(polygons, skew_deg):
         pts = np.asarray(poly, dtype=np.float64)
         x0, x1, y = pts[:, 0].min(), pts[:, 0].max(), pts[:, 1].mean()
         dy = np.tan(np.radians(skew_deg)) * max(x1 - x0, 1.0)
-        for j in range(2):
+        for j in range(LINE_COUNTS[lv][k % 5]):
             reg.lines.append(TextLine(id=f'r{k}-l{j}', index=j, baseline=np.asarray([[x0, y + 3 * j], [max(x1, x0 + 1.0), y + 3 * j + dy]]),
                                       polygon=np.asarray([[x0, y - 2], [max(x1, x0 + 1.0), y - 2 + dy], [max(x1, x0 + 1.0), y + 2 + dy], [x0, y + 2]]),
                                       heights=[2, 1], transcription=f'line {k}.{j}'))
@@ -165,16 +170,16 @@ def check_case(case, ctx):
         polygons = [POLYS[i] for i in case['polys']]
         what = f'polygons {polygons}'
     skew = SKEWS[case['skew']]
-    ctx.state((what, skew))
+    ctx.state((what, skew, case.get('lv', 0)))
     configs = [('smart', p) for p in INTERSECT] + [('naive', d) for d in DENOMS]
     if 'cfg' in case:
         configs = [tuple(case['cfg'])]
     for name, param in configs:
         sub = dict(case, cfg=[name, param])
         K = f'{ID}/{name}'
-        page = build_page(polygons, skew)
+        page = build_page(polygons, skew, case.get('lv', 0))
         before = snapshot(page)
-        desc = f'{name} sorter (parameter {param}), {what}, line skew {skew} deg'
+        desc = f'{name} sorter (parameter {param}), {what}, line skew {skew} deg, lines per region {LINE_COUNTS[case.get("lv", 0)][:len(polygons)]}'
         try:
             out = run_sorter(name, param, page, ctx)
         except CaseTimeout:
